@@ -1,6 +1,12 @@
+// Command vcheck is the contract-based deductive verifier for ohler55/ojg
+// built for this task: it loads /repo's current working tree, generates
+// verification conditions for the functions under contract and discharges them
+// with z3 / cvc5. See /verif/DESIGN.md.
 package main
 
 import (
+	"crypto/sha256"
+	"encoding/json"
 	"flag"
 	"fmt"
 	"os"
@@ -8,6 +14,7 @@ import (
 	"runtime/debug"
 	"runtime/pprof"
 	"sort"
+	"strconv"
 	"strings"
 	"time"
 
@@ -16,7 +23,7 @@ import (
 	"golang.org/x/tools/go/ssa/ssautil"
 
 	"verif/internal/contract"
-	"verif/internal/smt"
+	"verif/internal/solve"
 	"verif/internal/symex"
 )
 
@@ -24,8 +31,7 @@ var (
 	flagFunc    = flag.String("func", "", "only functions whose key contains this")
 	flagUnit    = flag.String("unit", "", "only this unit")
 	flagDump    = flag.String("dump", "", "directory to dump SMT scripts of failed obligations")
-	flagDumpAll = flag.Bool("dumpall", false, "dump every obligation")
-	flagTimeout = flag.Int("timeout", 20, "solver timeout (s)")
+	flagTimeout = flag.Int("timeout", 0, "solver timeout (s); default 20 quick / 60 thorough")
 	flagV       = flag.Bool("v", false, "verbose")
 	flagPkgs    = flag.String("pkgs", "oj,gen,sen,jp,alt,asm,pretty,.", "ojg packages to load")
 	flagJobs    = flag.Int("j", 16, "parallel solver jobs")
@@ -34,6 +40,11 @@ var (
 	flagProf    = flag.String("cpuprofile", "", "write cpu profile")
 	flagOnly    = flag.String("only", "", "discharge only obligations whose name contains this")
 	flagMutate  = flag.String("mutate", "", "in-memory mutation 'relpath@@old@@new' (first occurrence; testing the engine)")
+	flagProp    = flag.String("prop", "", "property id: run as a registered check (evidence, VIOLATION lines, exit code)")
+	flagTier    = flag.String("tier", "", "quick or thorough (default: $VERIF_TIER or quick)")
+	flagReplay  = flag.String("replay", "", "re-run the obligation recorded in a replay file")
+	flagLemmas  = flag.Bool("lemmas", false, "also check lemmas when -func is given")
+	flagRepo    = flag.String("repo", "/repo", "repository root")
 )
 
 const ojg = "github.com/ohler55/ojg"
@@ -46,73 +57,36 @@ func main() {
 		pprof.StartCPUProfile(f)
 		defer pprof.StopCPUProfile()
 	}
-	t0 := time.Now()
-	var pats []string
-	for _, p := range strings.Split(*flagPkgs, ",") {
-		if p == "." {
-			pats = append(pats, ojg)
+	tier := *flagTier
+	if tier == "" {
+		tier = os.Getenv("VERIF_TIER")
+	}
+	if tier != "thorough" {
+		tier = "quick"
+	}
+	if *flagTimeout == 0 {
+		if tier == "thorough" {
+			*flagTimeout = 60
 		} else {
-			pats = append(pats, ojg+"/"+p)
+			*flagTimeout = 20
 		}
 	}
-	pats = append(pats, "verif/spec")
-	cfg := &packages.Config{Mode: packages.LoadAllSyntax, Dir: "/verif", BuildFlags: []string{"-tags=verif"},
-		Env: append(os.Environ(), "GOFLAGS=-mod=mod", "GOPROXY=off", "GOSUMDB=off", "GOTOOLCHAIN=local")}
-	if *flagMutate != "" {
-		parts := strings.SplitN(*flagMutate, "@@", 3)
-		if len(parts) != 3 {
-			fmt.Println("bad -mutate")
-			os.Exit(2)
-		}
-		path := filepath.Join("/repo", parts[0])
-		data, err := os.ReadFile(path)
-		if err != nil || !strings.Contains(string(data), parts[1]) {
-			fmt.Println("mutate: pattern not found in", path)
-			os.Exit(2)
-		}
-		cfg.Overlay = map[string][]byte{path: []byte(strings.Replace(string(data), parts[1], parts[2], 1))}
+	if *flagReplay != "" {
+		os.Exit(replay(*flagReplay))
 	}
-	pkgs, err := packages.Load(cfg, pats...)
+	t0 := time.Now()
+	eng, err := load()
 	if err != nil {
-		fmt.Println("load:", err)
+		fmt.Println(err)
+		if *flagProp != "" {
+			// the tree does not load: nothing can be proved about it
+			fmt.Printf("VIOLATION property=%s replay=%s no-failing-input-found\n", *flagProp, writeReplay(*flagProp, symex.Result{O: &symex.Oblig{Name: "load", Kind: "load"}, Status: "error", Output: err.Error()}))
+			os.Exit(1)
+		}
 		os.Exit(2)
 	}
-	if packages.PrintErrors(pkgs) > 0 {
-		os.Exit(2)
-	}
-	prog, _ := ssautil.AllPackages(pkgs, ssa.NaiveForm|ssa.GlobalDebug)
-	prog.Build()
-	eng := symex.NewEngine(prog, pkgs)
-	// contract files
-	for _, p := range pkgs {
-		if !strings.HasPrefix(p.PkgPath, ojg) || len(p.GoFiles) == 0 {
-			continue
-		}
-		dir := filepath.Dir(p.GoFiles[0])
-		path := filepath.Join(dir, "zz_verif_contracts.go")
-		if _, err := os.Stat(path); err == nil {
-			f, err := contract.ParseFile(path, p.PkgPath)
-			if err != nil {
-				fmt.Println("contract:", err)
-				os.Exit(2)
-			}
-			if err := eng.AddContracts(f); err != nil {
-				fmt.Println("contract:", err)
-				os.Exit(2)
-			}
-		}
-	}
-	ax, _ := filepath.Glob("/verif/axioms/*.contracts")
-	for _, a := range ax {
-		f, err := contract.ParseFile(a, "")
-		if err != nil {
-			fmt.Println("axioms:", err)
-			os.Exit(2)
-		}
-		if err := eng.AddContracts(f); err != nil {
-			fmt.Println("axioms:", err)
-			os.Exit(2)
-		}
+	if *flagProp != "" {
+		os.Exit(runProperty(eng, *flagProp, tier, t0))
 	}
 	fmt.Printf("loaded in %.1fs\n", time.Since(t0).Seconds())
 	reps := eng.VerifyAll(func(fc *contract.Func) bool {
@@ -127,10 +101,13 @@ func main() {
 	for _, r := range reps {
 		fmt.Printf("func %-40s blocks=%d loops=%d paths=%d exits=%d obligations=%d %s\n", r.Func, r.Blocks, r.Loops, r.Paths, r.Exits, r.Obligs, r.Unsupp)
 	}
+	if *flagFunc == "" || *flagLemmas {
+		eng.VerifyLemmas()
+	}
 	fmt.Printf("generated %d obligations in %.1fs\n", len(eng.Obligs), time.Since(t0).Seconds())
 	if *flagList {
 		for _, o := range eng.Obligs {
-			fmt.Println(o.Name)
+			fmt.Println(o.Name, o.Props)
 		}
 		return
 	}
@@ -143,7 +120,6 @@ func main() {
 		}
 		eng.Obligs = keep
 	}
-	// discharge
 	results := symex.Discharge(eng.Obligs, symex.DischargeOpts{Timeout: time.Duration(*flagTimeout) * time.Second, Jobs: *flagJobs, Diagnose: *flagDiag})
 	nfail := 0
 	byStatus := map[string]int{}
@@ -181,8 +157,389 @@ func main() {
 	for _, n := range eng.Notes {
 		fmt.Println("note:", n)
 	}
-	_ = smt.True
 	if nfail > 0 {
 		os.Exit(1)
 	}
+}
+
+// load builds the SSA program from the repository's current working tree and binds the contracts.
+func load() (*symex.Engine, error) {
+	var pats []string
+	for _, p := range strings.Split(*flagPkgs, ",") {
+		if p == "." {
+			pats = append(pats, ojg)
+		} else {
+			pats = append(pats, ojg+"/"+p)
+		}
+	}
+	pats = append(pats, "verif/spec")
+	cfg := &packages.Config{Mode: packages.LoadAllSyntax, Dir: "/verif", BuildFlags: []string{"-tags=verif"},
+		Env: append(os.Environ(), "GOFLAGS=-mod=mod", "GOPROXY=off", "GOSUMDB=off", "GOTOOLCHAIN=local")}
+	if *flagMutate != "" {
+		parts := strings.SplitN(*flagMutate, "@@", 3)
+		if len(parts) != 3 {
+			return nil, fmt.Errorf("bad -mutate")
+		}
+		path := filepath.Join(*flagRepo, parts[0])
+		data, err := os.ReadFile(path)
+		if err != nil || !strings.Contains(string(data), parts[1]) {
+			return nil, fmt.Errorf("mutate: pattern not found in %s", path)
+		}
+		cfg.Overlay = map[string][]byte{path: []byte(strings.Replace(string(data), parts[1], parts[2], 1))}
+	}
+	pkgs, err := packages.Load(cfg, pats...)
+	if err != nil {
+		return nil, fmt.Errorf("load: %v", err)
+	}
+	if packages.PrintErrors(pkgs) > 0 {
+		return nil, fmt.Errorf("load: the repository does not type-check")
+	}
+	prog, _ := ssautil.AllPackages(pkgs, ssa.NaiveForm|ssa.GlobalDebug)
+	prog.Build()
+	eng := symex.NewEngine(prog, pkgs)
+	for _, p := range pkgs {
+		if !strings.HasPrefix(p.PkgPath, ojg) || len(p.GoFiles) == 0 {
+			continue
+		}
+		dir := filepath.Dir(p.GoFiles[0])
+		path := filepath.Join(dir, "zz_verif_contracts.go")
+		if _, err := os.Stat(path); err == nil {
+			f, err := contract.ParseFile(path, p.PkgPath)
+			if err != nil {
+				return nil, fmt.Errorf("contract: %v", err)
+			}
+			if err := eng.AddContracts(f); err != nil {
+				return nil, fmt.Errorf("contract: %v", err)
+			}
+		}
+	}
+	ax, _ := filepath.Glob("/verif/axioms/*.contracts")
+	for _, a := range ax {
+		f, err := contract.ParseFile(a, "")
+		if err != nil {
+			return nil, fmt.Errorf("axioms: %v", err)
+		}
+		if err := eng.AddContracts(f); err != nil {
+			return nil, fmt.Errorf("axioms: %v", err)
+		}
+	}
+	return eng, nil
+}
+
+// ---------------------------------------------------------------------------
+// Registered property checks.
+
+// Finding is one entry of /verif/known_findings.json.
+type Finding struct {
+	Property   string `json:"property"`
+	Obligation string `json:"obligation"` // exact obligation name or prefix ending in '*'
+	Status     string `json:"status"`     // "open" or "fixed"
+	Commit     string `json:"commit,omitempty"`
+	What       string `json:"what"`
+	Witness    string `json:"witness,omitempty"`
+}
+
+type findingsFile struct {
+	Findings []Finding `json:"findings"`
+}
+
+func loadFindings() []Finding {
+	data, err := os.ReadFile("/verif/known_findings.json")
+	if err != nil {
+		return nil
+	}
+	var ff findingsFile
+	if err := json.Unmarshal(data, &ff); err != nil {
+		fmt.Println("known_findings.json:", err)
+		os.Exit(2)
+	}
+	return ff.Findings
+}
+
+func (f Finding) matches(prop, name string) bool {
+	if f.Property != prop {
+		return false
+	}
+	return wildMatch(f.Obligation, name)
+}
+
+// wildMatch matches name against a pattern in which '*' stands for any substring.
+func wildMatch(pat, name string) bool {
+	parts := strings.Split(pat, "*")
+	if len(parts) == 1 {
+		return pat == name
+	}
+	if !strings.HasPrefix(name, parts[0]) {
+		return false
+	}
+	name = name[len(parts[0]):]
+	for i := 1; i < len(parts)-1; i++ {
+		k := strings.Index(name, parts[i])
+		if k < 0 {
+			return false
+		}
+		name = name[k+len(parts[i]):]
+	}
+	return strings.HasSuffix(name, parts[len(parts)-1])
+}
+
+// propTags maps a property to the obligation tags it proves.
+func propTags(prop string) map[string]bool {
+	t := map[string]bool{prop: true}
+	switch prop {
+	case "C06":
+		t["SAFETY"] = true
+		t["TERM"] = true
+	case "C07":
+		t["FRAME"] = true
+	}
+	return t
+}
+
+func hasTag(o *symex.Oblig, tags map[string]bool) bool {
+	for _, p := range o.Props {
+		if tags[p] {
+			return true
+		}
+	}
+	return false
+}
+
+func funcServes(fc *contract.Func, tags map[string]bool) bool {
+	if tags["SAFETY"] || tags["FRAME"] {
+		return true
+	}
+	chk := func(cs []contract.Clause) bool {
+		for _, c := range cs {
+			for _, p := range c.Props {
+				if tags[p] {
+					return true
+				}
+			}
+		}
+		return false
+	}
+	if chk(fc.Requires) || chk(fc.Ensures) {
+		return true
+	}
+	for _, l := range fc.Loops {
+		if chk(l.Invariants) {
+			return true
+		}
+	}
+	for _, c := range fc.Calls {
+		if chk(c.Asserts) {
+			return true
+		}
+	}
+	return false
+}
+
+type evidence struct {
+	PropertyID  string         `json:"property_id"`
+	Tier        string         `json:"tier"`
+	Seed        int            `json:"seed"`
+	Level       string         `json:"level"`
+	Coverage    map[string]any `json:"coverage"`
+	Assumptions []string       `json:"assumptions"`
+	WallS       float64        `json:"wall_s"`
+	Violations  int            `json:"violations"`
+}
+
+func runProperty(eng *symex.Engine, prop, tier string, t0 time.Time) int {
+	seed, _ := strconv.Atoi(os.Getenv("VERIF_SEED"))
+	if seed < 0 {
+		seed = -seed
+	}
+	tags := propTags(prop)
+	info := propInfo(prop)
+	reps := eng.VerifyAll(func(fc *contract.Func) bool { return funcServes(fc, tags) })
+	eng.VerifyLemmas()
+	var sel []*symex.Oblig
+	for _, o := range eng.Obligs {
+		if hasTag(o, tags) {
+			sel = append(sel, o)
+		}
+	}
+	// vacuity guards: requires satisfiable, some exit reachable (only a proof of unsat is an alarm)
+	var guards []*symex.Oblig
+	for _, r := range reps {
+		if r.ReqSat != nil {
+			guards = append(guards, r.ReqSat)
+		}
+		if r.Canary != nil {
+			guards = append(guards, r.Canary)
+		}
+	}
+	opts := symex.DischargeOpts{Timeout: time.Duration(*flagTimeout) * time.Second, Jobs: *flagJobs, All: tier == "thorough"}
+	results := symex.Discharge(sel, opts)
+	gres := symex.Discharge(guards, symex.DischargeOpts{Timeout: 5 * time.Second, Jobs: *flagJobs, MaxGroup: 1})
+	findings := loadFindings()
+	violations := 0
+	discharged := 0
+	byKind := map[string]int{}
+	bySolver := map[string]int{}
+	var solverSecs, maxSecs float64
+	var samples []any
+	known := map[string]bool{}
+	os.MkdirAll("/verif/replays", 0o755)
+	var failed []symex.Result
+	for _, r := range results {
+		byKind[r.O.Kind]++
+		solverSecs += r.Secs
+		if r.Secs > maxSecs {
+			maxSecs = r.Secs
+		}
+		if r.Status == "unsat" {
+			discharged++
+			bySolver[r.By]++
+			continue
+		}
+		failed = append(failed, r)
+	}
+	if len(results) > 0 {
+		step := len(results)/6 + 1
+		for i := seed % step; i < len(results); i += step {
+			r := results[i]
+			samples = append(samples, map[string]any{"obligation": r.O.Name, "kind": r.O.Kind, "status": r.Status, "by": r.By, "pos": r.O.Pos})
+		}
+	}
+	vacuous := 0
+	for _, g := range gres {
+		if g.Status == "unsat" {
+			vacuous++
+			failed = append(failed, symex.Result{O: &symex.Oblig{Name: g.O.Name + " (vacuous: contradictory assumptions)", Kind: g.O.Kind, Func: g.O.Func}, Status: "vacuous",
+				Output: "the assumptions of this function are unsatisfiable; every obligation would hold vacuously"})
+		}
+	}
+	var funcs []any
+	for _, r := range reps {
+		funcs = append(funcs, map[string]any{"func": r.Func, "pos": r.SourcePos, "ssa_blocks": r.Blocks, "loops": r.Loops, "paths": r.Paths, "obligations_generated": r.Obligs, "outside_subset": r.Unsupp})
+	}
+	if len(sel) == 0 {
+		failed = append(failed, symex.Result{O: &symex.Oblig{Name: prop + "/no-obligations", Kind: "vacuity"}, Status: "vacuous", Output: "no obligation was generated for this property: contracts missing or unbound"})
+	}
+	for _, r := range failed {
+		isKnown := false
+		for _, f := range findings {
+			if f.Status == "open" && f.matches(prop, r.O.Name) {
+				isKnown = true
+				if !known[f.Obligation] {
+					known[f.Obligation] = true
+					fmt.Printf("KNOWN-FINDING: property=%s %s\n", prop, f.What)
+				}
+			}
+		}
+		if isKnown {
+			continue
+		}
+		violations++
+		path := writeReplay(prop, r)
+		suffix := ""
+		if !strings.Contains(r.Output, "REPLAYED-ON-REAL-CODE") {
+			suffix = " no-failing-input-found"
+		}
+		fmt.Printf("VIOLATION property=%s replay=%s obligation=%q status=%s%s\n", prop, path, r.O.Name, r.Status, suffix)
+	}
+	wall := time.Since(t0).Seconds()
+	ev := evidence{PropertyID: prop, Tier: tier, Seed: seed, Level: info.Level, WallS: wall, Violations: violations}
+	ev.Coverage = map[string]any{
+		"obligations":              len(results),
+		"discharged":               discharged,
+		"checker_cmd":              "bin/vcheck -prop " + prop + " -tier " + tier + " (VC generator over go/ssa of /repo's working tree; back ends z3-new 5.1.0, z3 4.8.12, cvc5 1.0)",
+		"trusted_base":             trustedBase(eng),
+		"explanation":              info.Explanation,
+		"not_covered":              info.NotCovered,
+		"functions_under_contract": funcs,
+		"obligations_by_kind":      byKind,
+		"discharged_by":            bySolver,
+		"solver_seconds_total":     solverSecs,
+		"solver_seconds_max":       maxSecs,
+		"vacuity_guards":           map[string]any{"checked": len(gres), "contradictory": vacuous},
+		"samples":                  samples,
+		"known_findings_reported":  len(known),
+		"contracts_sha256":         contractsHash(eng),
+	}
+	ev.Assumptions = append(ev.Assumptions, globalAssumptions...)
+	ev.Assumptions = append(ev.Assumptions, eng.Notes...)
+	data, _ := json.MarshalIndent(ev, "", " ")
+	os.MkdirAll("/verif/evidence", 0o755)
+	os.WriteFile("/verif/evidence/"+prop+".json", data, 0o644)
+	fmt.Printf("property=%s tier=%s functions=%d obligations=%d discharged=%d violations=%d wall=%.1fs\n", prop, tier, len(reps), len(results), discharged, violations, wall)
+	if violations > 0 {
+		return 1
+	}
+	return 0
+}
+
+var globalAssumptions = []string{
+	"A-LEN: every slice and string length is at most 2^40; stream offsets at most 2^60",
+	"A-CB: callbacks, interface-method and func-value calls return and do not touch the calling object or its scratch arrays",
+	"A-OWN: scratch arrays owned by a parser/validator/writer object are not aliased by caller-visible slices (stated as requires on the entry points)",
+	"machine integers: int/int64 arithmetic is exact with an explicit no-overflow obligation on every operation; narrower and unsigned types use wrap-around semantics",
+	"allocation never fails; goroutines and scheduling are not modelled",
+	"floating point arithmetic is uninterpreted (no property proof relies on it)",
+	"the specification functions in /verif/spec are trusted (validated against encoding/json by go test ./spec)",
+	"the VC generator itself (go/ssa semantics, memory model of DESIGN.md §3.2) is trusted",
+}
+
+func trustedBase(eng *symex.Engine) []string {
+	tb := []string{"z3 4.8.12 / z3 5.1.0 / cvc5 1.0 (an obligation counts as discharged when one solver answers unsat and none answers sat)", "golang.org/x/tools/go/ssa v0.29.0 (SSA construction)", "vcheck VC generator (/verif/internal/symex)", "/verif/spec (executable specification)"}
+	for _, f := range eng.Files {
+		for _, fc := range f.Funcs {
+			if fc.Trusted {
+				tb = append(tb, "assumed contract: "+fc.Pkg+" "+fc.Key)
+			}
+		}
+	}
+	return tb
+}
+
+func contractsHash(eng *symex.Engine) string {
+	h := sha256.New()
+	for _, f := range eng.Files {
+		data, _ := os.ReadFile(f.Path)
+		h.Write(data)
+	}
+	return fmt.Sprintf("%x", h.Sum(nil))[:16]
+}
+
+func writeReplay(prop string, r symex.Result) string {
+	os.MkdirAll("/verif/replays", 0o755)
+	h := sha256.Sum256([]byte(r.O.Name))
+	path := fmt.Sprintf("/verif/replays/%s-%x.json", prop, h[:6])
+	rec := map[string]any{"property": prop, "obligation": r.O.Name, "kind": r.O.Kind, "func": r.O.Func, "pos": r.O.Pos, "status": r.Status,
+		"note": r.O.Note, "solver_output": r.Output, "script": r.Script, "replay_cmd": "bin/vcheck -replay " + path}
+	data, _ := json.MarshalIndent(rec, "", " ")
+	os.WriteFile(path, data, 0o644)
+	return path
+}
+
+// replay re-runs the SMT query stored in a replay file.
+func replay(path string) int {
+	data, err := os.ReadFile(path)
+	if err != nil {
+		fmt.Println(err)
+		return 2
+	}
+	var rec map[string]any
+	if err := json.Unmarshal(data, &rec); err != nil {
+		fmt.Println(err)
+		return 2
+	}
+	script, _ := rec["script"].(string)
+	fmt.Printf("obligation: %v\n", rec["obligation"])
+	if script == "" {
+		fmt.Println("no SMT script recorded (structural failure):", rec["solver_output"])
+		return 1
+	}
+	v := solve.Decide(script, time.Duration(*flagTimeout)*time.Second, true)
+	for _, r := range v.Results {
+		fmt.Printf("%s: %s (%.2fs)\n", r.Solver, r.Answer, r.Secs)
+	}
+	if v.Status == "unsat" {
+		fmt.Println("the recorded query is unsat now (it no longer fails)")
+		return 0
+	}
+	return 1
 }
